@@ -735,6 +735,10 @@ def check_table(ctx, rng, xs, ys, klass, nice, coef=None, npairs=24, nprobe=6, w
     pairs = interval_points(rng, xs, few=False)
     rng.shuffle(pairs)
     pairs = pairs[:npairs] + [(lo, hi), (hi, lo), (lo - 5.0, hi + 5.0)]
+    # limits beside the table ends by less than the object's tolerance, outside and inside, in either order (round 8:
+    # C12-i clamped a limit only when it was outside by more than the tolerance while __call__ refused it first)
+    eps = 0.5 * TOL
+    pairs += [(lo - eps, hi), (lo, hi + eps), (hi + eps, lo - eps), (lo + eps, hi - eps), (lo - eps, hi + 2 * eps)]
     sc = float(L.scale)
     for (a, b) in pairs:
         out = run_impl(i.root, a, b)
